@@ -135,6 +135,11 @@ func (m *vsMock) Ping(ctx context.Context) error {
 
 func (m *vsMock) WaitUntilRunning(ctx context.Context) error {
 	m.r.ev("waitcall", m.id)
+	if g := vhCur(); g != nil {
+		m.r.mu.Lock()
+		m.r.waitCtx[g] = ctx
+		m.r.mu.Unlock()
+	}
 	alt := vhEnvChoice("mock.wait", 2)
 	if alt == 1 {
 		m.r.ev("wait", m.id, "fail")
@@ -202,6 +207,7 @@ type vsRun struct {
 	apis    int
 	srv     *Server
 	names   []string
+	waitCtx map[*vhG]context.Context
 }
 
 func (r *vsRun) ev(a ...any) {
@@ -625,6 +631,10 @@ func (r *vsRun) randomChoice() (vsChoice, bool) {
 			if r.rng.Float64() < c.PFail {
 				alt = 1
 			}
+			// a load whose request has been cancelled fails (the real WaitUntilRunning watches the context)
+			if r.loadCancelled(os_[0].g) && r.rng.Float64() < 0.85 {
+				alt = 1
+			}
 			for _, o := range os_ {
 				if o.c.Alt == alt {
 					return o.c, true
@@ -702,6 +712,16 @@ func (r *vsRun) step(c vsChoice, phase string) bool {
 	return true
 }
 
+func (r *vsRun) loadCancelled(g *vhG) bool {
+	if g.Site != "mock.wait" {
+		return false
+	}
+	r.mu.Lock()
+	ctx := r.waitCtx[g]
+	r.mu.Unlock()
+	return ctx != nil && ctx.Err() != nil
+}
+
 // runInternal runs enabled scheduler goroutines (creation order, successful outcomes) until none is enabled.
 func (r *vsRun) runInternal(phase string, budget *int) {
 	for *budget > 0 {
@@ -710,7 +730,11 @@ func (r *vsRun) runInternal(phase string, budget *int) {
 			return
 		}
 		*budget--
-		r.step(ints[0].c, phase)
+		ch := ints[0].c
+		if r.loadCancelled(ints[0].g) {
+			ch.Alt = 1
+		}
+		r.step(ch, phase)
 		if cyc := r.lockCycle(); cyc != nil {
 			return
 		}
@@ -821,7 +845,7 @@ func vsRunCase(dir string, c *vsCase) (obs *vsObs) {
 	os.Unsetenv("OLLAMA_KEEP_ALIVE")
 	os.Unsetenv("OLLAMA_SCHED_SPREAD")
 	synctest.Run(func() {
-		r := &vsRun{c: c, dir: dir, ptr2rid: map[*runnerRef]int{}, rng: rand.New(rand.NewSource(c.Seed)), quit: make(chan struct{}), obs: obs}
+		r := &vsRun{c: c, dir: dir, waitCtx: map[*vhG]context.Context{}, ptr2rid: map[*runnerRef]int{}, rng: rand.New(rand.NewSource(c.Seed)), quit: make(chan struct{}), obs: obs}
 		for k, m := range c.Models {
 			if c.Via == "sr" {
 				name := vsStoreNames[k%len(vsStoreNames)]
